@@ -290,3 +290,65 @@ func c18Path(c *core.Ctx, r *core.Reporter) {
 			"the 'Cannot return null for non-nullable field' error is not given the frame's own path")
 	}
 }
+
+func init() {
+	register(&core.Rule{Name: "C18/EXH-lineterm", Props: []string{"C18"}, Min: 1,
+		Doc: "every place that splits the source into lines uses the same line-terminator pattern", Run: c18LineTerm})
+}
+
+// c18LineTerm: location.GetLocation (line/column), gqlerrors.highlightSourceAtLocation (the
+// quoted source lines) and the lexer's block-string line splitting must agree on what a line
+// terminator is (LF, CR, CRLF as one): a disagreement shifts reported lines after a CR or CRLF.
+func c18LineTerm(c *core.Ctx, r *core.Reporter) {
+	pats := map[string][]string{}
+	var pos token.Pos
+	for _, rel := range []string{"language/location", "gqlerrors", "language/lexer"} {
+		p := c.Pkg(rel)
+		for _, f := range p.Syntax {
+			ast.Inspect(f, func(x ast.Node) bool {
+				call, ok := x.(*ast.CallExpr)
+				if !ok || len(call.Args) != 1 {
+					return true
+				}
+				fo := core.CalleeObj(p.TypesInfo, call)
+				if fo == nil || fo.Pkg() == nil || fo.Pkg().Path() != "regexp" || fo.Name() != "MustCompile" {
+					return true
+				}
+				s := constString(p.TypesInfo, call.Args[0])
+				if s != "" && (containsAny(s, `\n`, "\n") || containsAny(s, `\r`, "\r")) {
+					pats[s] = append(pats[s], rel)
+					pos = call.Pos()
+				}
+				return true
+			})
+		}
+	}
+	n := 0
+	for _, v := range pats {
+		n += len(v)
+	}
+	if n < 3 {
+		r.Unknown("line-terminator-pattern", pos, "expected line-splitting patterns in location, gqlerrors and lexer; found %d", n)
+		return
+	}
+	var desc []string
+	for k, v := range pats {
+		desc = append(desc, fmt.Sprintf("%q in %v", k, v))
+	}
+	sort.Strings(desc)
+	r.Check(len(pats) == 1, "line-terminator-pattern", pos, "one line-terminator pattern shared by all "+fmt.Sprint(n)+" line-splitting sites: "+desc[0],
+		"the line-splitting sites disagree on the line-terminator pattern ("+fmt.Sprint(desc)+"): line numbers, columns and the quoted source lines no longer agree for CR / CRLF input")
+}
+
+func containsAny(s string, subs ...string) bool {
+	for _, x := range subs {
+		if len(x) > 0 && len(s) >= len(x) {
+			for i := 0; i+len(x) <= len(s); i++ {
+				if s[i:i+len(x)] == x {
+					return true
+				}
+			}
+		}
+	}
+	return false
+}
